@@ -1,5 +1,6 @@
 import NxModel.Misc.Mii
 import NxModel.Misc.Auth
+import NxModel.Misc.AuthClients
 import NxModel.DriverUtil
 /-! line-protocol driver for C19 (bytes in hex, `-` = empty; text as comma-separated code points; see harness/corr_C19.py)
 -/
@@ -72,8 +73,77 @@ def pairs : List String → Option (List (Bytes × Bytes))
 def showPairs (l : List (Bytes × Bytes)) : String :=
   if l.isEmpty then "-" else " ".intercalate (l.map fun (k, v) => hexOut k ++ " " ++ hexOut v)
 
+/-! one client object, a sequence of operations (see NxModel/Misc/AuthClients.lean) -/
+
+def splitAt1 (s : String) (sep : String) : String × String :=
+  match s.splitOn sep with
+  | [] => ("", "")
+  | a :: r => (a, sep.intercalate r)
+
+def hppOp? (tok : String) : Option HppOp :=
+  let (name, arg) := splitAt1 tok "="
+  match name with
+  | "ak" => (hx arg).map .setAccessKey
+  | "pw" => (hx arg).map .setPassword
+  | "pid" => arg.toNat?.map .setPid
+  | "cid" => arg.toNat?.map .setCallId
+  | "nop" => some .other
+  | "req" => (hx arg).map .request
+  | _ => none
+
+def showHppSent (r : HppSent) : String :=
+  s!"{r.callId}:{hexOut r.pidHeader}:{hexOut r.signature1}:{hexOut r.signature2}"
+
+def dictPairs? (s : String) : Option Dict :=
+  if s = "-" then some [] else
+  (s.splitOn ",").mapM fun kv =>
+    match kv.splitOn ":" with
+    | [k, v] => do let k ← hx k; let v ← hx v; pure (k, v)
+    | _ => none
+
+def bool? (s : String) : Option Bool := if s = "1" then some true else if s = "0" then some false else none
+
+def dauthOp? (tok : String) : Option DAuthOp :=
+  let (name, arg) := splitAt1 tok "="
+  match name with
+  | "key" => match arg.splitOn ":" with
+    | [k, v] => do let k ← hx k; let v ← hx v; pure (.setKey k v)
+    | _ => none
+  | "del" => (hx arg).map .delKey
+  | "keys" => (dictPairs? arg).map .setKeys
+  | "ver" => match arg.splitOn ":" with
+    | [g, d, a] => do let g ← g.toNat?; let d ← hx d; let a ← bool? a; pure (.setVersion g d a)
+    | _ => none
+  | "kg" => arg.toNat?.map .setKeygen
+  | "ist" => (bool? arg).map .setIst
+  | "nop" => some .other
+  | "tok" => match arg.splitOn "/" with
+    | [e, ch, dt, cid, v] => do
+      let e ← bool? e; let ch ← hx ch; let dt ← natList? dt; let cid ← cid.toNat?; let v ← hx v
+      pure (.token e ch dt cid v)
+    | _ => none
+  | "mac" => match arg.splitOn "/" with
+    | [f, d] => do let f ← hx f; let d ← hx d; pure (.mac f d)
+    | _ => none
+  | _ => none
+
+def showDAuthOut : DAuthOut → String
+  | .token (.ok (m, f)) => "ok:" ++ hexOut m ++ ":" ++ hexOut f
+  | .token (.error e) => "err:" ++ e.name
+  | .mac (.ok m) => "ok:" ++ hexOut m
+  | .mac (.error e) => "err:" ++ e.name
+
 def step (line : String) : String :=
   match (line.splitOn " ").filter (· ≠ "") with
+  | "hpp-walk" :: ak :: pw :: pid :: ops =>
+    match hx ak, hx pw, pid.toNat?, ops.mapM hppOp? with
+    | some ak, some pw, some pid, some ops =>
+      " ".intercalate ("ok" :: (hppRun (HppClient.fresh ak pw pid) ops).2.map showHppSent)
+    | _, _, _, _ => "bad-op"
+  | "dauth-walk" :: ops =>
+    match ops.mapM dauthOp? with
+    | some ops => " ".intercalate ("ok" :: (dauthRun ⟨[], 0, [], false, false⟩ ops).2.map showDAuthOut)
+    | none => "bad-op"
   | ["selftest"] =>
     match selfTests.filter (fun t => !t.2) with
     | [] => s!"ok {selfTests.length}"
